@@ -869,12 +869,30 @@ def step_block(case, frm=0, to=None):
 
 def gen_equiv(rng, idx):
     """-> (kind, dict of scenario texts, compare spec)"""
-    kind = ["config", "load", "loadstr", "delete", "addforce"][idx % 5]
+    kind = ["config", "load", "loadstr", "delete", "addforce", "modifycvcs"][idx % 6]
     case = gen_agree(rng, idx)
     case["T"] = len(case["steps"])
     cvtxt = "\n".join(cv["text"] for cv in case["cvs"]) + "\n"
     btxt = "".join(b["text"] for b in case["biases"])
     glob = "colvarsTrajFrequency 0\n"
+    if kind == "modifycvcs":
+        # A: a component defined with coefficient c2; B: defined with c1, then `cv colvar <name> modifycvcs "componentCoeff c2"`
+        # before the first step: every later step event (values, applied and total forces, energies, atomic forces) is equal
+        cand = [cv for cv in case["cvs"] if cv["vtype"] == "scalar" and not cv["ext"] and re.search(r"\n  (distance|angle|gyration) \{\n", cv["text"])]   # a periodic component keeps the period it had when defined
+        if not cand:
+            return dict(kind=kind, idx=idx, sub="none", scn={"A": "", "B": ""}, case=case, trivial=True)
+        cv = cand[0]
+        c1, c2 = rng.choice([(0.5, 2.0), (1.0, -1.5), (3.0, 0.25), (2.0, 1.0)])
+
+        def with_coeff(text, cf):
+            return re.sub(r"\n  (distance|angle|gyration) \{\n", lambda m: m.group(0) + "    componentCoeff %s\n" % fnum(cf), text, count=1)
+        others = "\n".join(o["text"] for o in case["cvs"] if o is not cv)
+        ta = glob + with_coeff(cv["text"], c2) + "\n" + others + "\n" + btxt
+        tb = glob + with_coeff(cv["text"], c1) + "\n" + others + "\n" + btxt
+        a = header(case) + "module\nconfig <<EOC\n" + ta + "EOC\ninit\nmark go\n" + step_block(case, 0)
+        b = (header(case) + "module\nconfig <<EOC\n" + tb + "EOC\nscript " +
+             json.dumps(["cv", "colvar", cv["name"], "modifycvcs", "\"componentCoeff %s\"" % fnum(c2)]) + "\ninit\nmark go\n" + step_block(case, 0))
+        return dict(kind=kind, idx=idx, sub="%s:%s->%s" % (cv["name"], fnum(c1), fnum(c2)), scn={"A": a, "B": b}, mark="go", case=case)
     if kind == "config":
         # A: read_config_string (one or two pieces); B: the same pieces through cv config
         two = rng.random() < 0.5
@@ -1161,7 +1179,7 @@ def run(tier, replay):
     c.extra["agreement_steps_checked"] = blocks
 
     # c. equivalence
-    neq = 100 if tier == "quick" else 2500
+    neq = 120 if tier == "quick" else 3000
 
     def do_equiv(i):
         rng = rngc(c.seed * 15485863 + i)
